@@ -151,9 +151,9 @@ MANIFEST_TEXT.update({
     "C12": dict(text="At-rest corruption of one block per scenario, enumerated over field paths x mutation kinds plus byte-level damage, checked in-process and through every loader; worker-process death is attributed to the run and reported.",
                 design_ref="DESIGN.md 3.4, 5 C12", note="Blocks are stored under their original cid (the simulated store does not re-verify hashes, like a faulty or malicious gateway).",
                 technique=DSIM + "E2 corrupt-at-rest fault injection, crash-surviving parent process as panic oracle"),
-    "C20": dict(text="Seeded operation sequences across keystore instances sharing a datastore (restart, LRU overflow, I/O errors) against a map model; identities re-created and cross-verified.",
-                design_ref="DESIGN.md 3.5, 5 C20", note="Operations are atomic events; keys are random so only relations are compared.",
-                technique=DSIM + "E3 keystore world with datastore fault injection and map reference model"),
+    "C20": dict(text="Seeded operation sequences across keystore instances sharing a datastore (restart, LRU overflow, I/O errors) against a map model; identities re-created and cross-verified. A share of the runs (C20c, plain and race build) interleaves get/has/create tasks on shared instances under the seeded task scheduler, with scheduling points before every cache and datastore call of the keystore (inserted at build time through a compiler overlay).",
+                design_ref="DESIGN.md 3.5, 5 C20", note="In the sequential worlds operations are atomic events; inside-operation interleavings are explored by the C20c runs for key-level operations only. Keys are random so only relations are compared.",
+                technique=DSIM + "E3 keystore world with datastore fault injection and map reference model; E3c concurrent keystore world under the E1 task scheduler"),
 })
 NOT_APPLICABLE[:] = [x for x in NOT_APPLICABLE if x["property_id"] not in PROPS]
 
